@@ -68,7 +68,7 @@ pub open spec fn u32_at(r: Seq<u8>, o: int) -> int {
 }
 pub open spec fn u64_at(r: Seq<u8>, o: int) -> int { u32_at(r, o) + 4294967296 * u32_at(r, o + 4) }
 
-/// [MS-XLS] 2.5.198.? Cell structure: rw (2 bytes), col (2 bytes), ixfe (2 bytes) open every cell record
+/// [MS-XLS] Cell structure: rw (2 bytes), col (2 bytes), ixfe (2 bytes) open every cell record (Number, RK, BoolErr, LabelSst, Label, Formula)
 pub open spec fn cell_row(r: Seq<u8>) -> int { u16_at(r, 0) }
 pub open spec fn cell_col(r: Seq<u8>) -> int { u16_at(r, 2) }
 pub open spec fn cell_ixfe(r: Seq<u8>) -> int { u16_at(r, 4) }
@@ -145,8 +145,8 @@ proof fn lemma_le_at(r: Seq<u8>, o: int)
     }
 }
 
-// ---- assumed contracts of callees
-// TRUSTED: Cell::new is verified here (two field moves), see below.
+// ---- callees: Cell::new, ExcelDateTime::new, format_excel_f64_ref, format_excel_f64, format_excel_i64 are verified here (verbatim);
+// rk_num and From<DataRef>::from are assumed in Verus and discharged by Kani on the real code.
 
 //@@ impl src/lib.rs Cell
 //@@ fn src/lib.rs Cell::new props=C02 ret=c
